@@ -24,7 +24,7 @@ import traceback
 ROOT = os.path.dirname(os.path.dirname(os.path.abspath(__file__)))
 REPO = os.environ.get("VERIF_REPO", "/repo")
 
-RUN_TIMEOUT = 300          # seconds per single run before the worker is declared hung
+RUN_TIMEOUT = 900          # seconds per single run before the worker is declared hung
 CHUNK = 8                  # runs per worker process (workers are recycled: mashumaro pins builders)
 
 
